@@ -36,7 +36,7 @@ class C06(PropBase):
                     yield dict(directed=directed, removal=True, hist=h, family='int', functional=(i % 2 == 0), win=wins, sub=[])
 
     def n_random(self, tier):
-        return 500 if tier == 'quick' else 9000
+        return 500 if tier == 'quick' else 20000
 
     def random_cases(self, rnd, n):
         for _ in range(n):
